@@ -341,6 +341,18 @@ def check_reporters(case, acc, tmpdir):
             if not core.close(float(got), total, total):
                 V('json-aggregate-compounding/%s/%s' % (block, nm), '%s.%s compounds to %r, the %s curve\'s daily returns to %r'
                   % (block, nm, float(got), block, float(total)))
+        # the chart-formatted copies carry the same periods and values (x 100)
+        hc = {(int(y_), int(m_)): float(v_) for m_, y_, v_ in b['monthly_agg_returns_hc']}
+        years = sorted({int(k_[0]) for k_, _ in b['monthly_agg_returns']})
+        plain = {(years.index(int(k_[0])), int(k_[1]) - 1): 100.0 * float(v_) for k_, v_ in b['monthly_agg_returns']}
+        if set(hc) != set(plain) or any(not same(hc[k_], plain[k_], 1e-9, 1e-9) for k_ in plain):
+            V('json-hc/monthly/%s' % block, '%s.monthly_agg_returns_hc has %d cells, monthly_agg_returns %d; cells only in one of them: %s'
+              % (block, len(hc), len(plain), sorted(set(hc) ^ set(plain))[:4]))
+        yhc = [float(v_) for v_ in b['yearly_agg_returns_hc']]
+        yplain = [100.0 * float(v_) for _, v_ in b['yearly_agg_returns']]
+        if len(yhc) != len(yplain) or any(not same(a_, b_, 1e-9, 1e-9) for a_, b_ in zip(yhc, yplain)):
+            V('json-hc/yearly/%s' % block, '%s.yearly_agg_returns_hc %s differs from yearly_agg_returns x 100 %s' % (block, yhc[:3], yplain[:3]))
+        acc.count('C17:json_chart_series_checks')
         for nm in ('sharpe', 'max_drawdown', 'max_drawdown_duration'):
             if not eqv(float(b[nm]), float(tsb[nm])):
                 V('reporters-disagree/%s/%s' % (block, nm), 'JSON %s.%s=%r, tearsheet of the same curve says %r'
@@ -421,6 +433,76 @@ def check_reporters(case, acc, tmpdir):
     acc.count('C17:reporter_checks')
 
 
+def check_tearsheet_figure(case, acc):
+    """The rendered tearsheet: the numbers printed in its statistics panel, for the strategy and for a benchmark whose
+    dates differ from the strategy's (it starts earlier), are those of the respective curve."""
+    import matplotlib.pyplot as plt
+    from qstrader.statistics.tearsheet import TearsheetStatistics
+    xs = case['equity']
+    n = len(xs)
+    lead = 15
+    ds_b = business_dates(dt.date.fromisoformat(case['start']) - dt.timedelta(days=35), n + 40)
+    ds_all, _ = make_index(case, n)
+    first = ds_all[0]
+    k0 = next(i for i, d in enumerate(ds_b) if pd.Timestamp(d).date() >= pd.Timestamp(first).date())
+    ds_b = ds_b[max(0, k0 - lead):k0 + n]
+    bench = [xs[(n - 1 - i) % n] * (1.0 + 0.002 * (i % 11)) * 1.3 for i in range(len(ds_b))]
+    idx_s = ds_all if case['index'] == 'date' else pd.DatetimeIndex([pd.Timestamp(d) for d in ds_all])
+    idx_b = ds_b if case['index'] == 'date' else pd.DatetimeIndex([pd.Timestamp(d) for d in ds_b])
+    df_s = pd.DataFrame({'Equity': xs}, index=idx_s)
+    df_b = pd.DataFrame({'Equity': bench}, index=idx_b)
+    periods = 252
+    ts_ = TearsheetStatistics(strategy_equity=df_s, benchmark_equity=df_b, title='t', periods=periods)
+    old_show = plt.show
+    plt.show = lambda *a, **k: None
+    try:
+        with np.errstate(all='ignore'):
+            ts_.plot_results()
+        fig = plt.gcf()
+        panel = [ax for ax in fig.axes if ax.get_title() == 'Equity Curve' and len(ax.texts) > 8]
+        if not panel:
+            V('tearsheet-figure/no-panel', 'the rendered tearsheet has no statistics panel')
+        texts = {}
+        for t_ in panel[0].texts:
+            x_, y_ = t_.get_position()
+            texts[(round(x_, 2), round(y_, 1))] = t_.get_text()
+    finally:
+        plt.show = old_show
+        plt.close('all')
+    for col, curve, who, frame in ((7.5, xs, 'strategy', df_s), (10.0, bench, 'benchmark', df_b)):
+        rl = d_returns(curve)
+        # the cumulative returns as the reporter itself computes them for THIS frame (an exact recovery to an old peak is
+        # a float tie in cumulative-return space; the drawdown definitions are applied to the reporter's own series, as in
+        # check_reporters) - what is decided here is which curve the panel describes
+        with np.errstate(all='ignore'):
+            own = TearsheetStatistics(strategy_equity=frame, periods=periods).get_results(frame)
+        cum = [float(v_) for v_ in own['cum_returns']]
+        if any(not same(c_, x_ / curve[0], 1e-9) for c_, x_ in zip(cum, curve)):
+            V('cum-returns-definition', 'cumulative returns of the %s frame are not value/first' % who)
+        dd = d_drawdowns(cum)
+        want = {6.9: (cum[-1] - 1.0, 100.0, 0, '%'), 5.9: (d_cagr(cum, periods), 100.0, 2, '%'),
+                1.9: (max(dd), 100.0, 2, '%'), 0.9: (float(d_duration(dd)), 1.0, 0, '')}
+        if not ill_conditioned(rl):
+            want[4.9] = (d_sharpe(rl, periods), 1.0, 2, '')
+        for y_, (val, mult, nd, suffix) in want.items():
+            txt = texts.get((col, y_))
+            if txt is None:
+                V('tearsheet-figure/missing/%s' % who, 'no %s figure at row %s of the statistics panel' % (who, y_))
+            try:
+                got = float(txt.replace('%', '').replace(',', ''))
+            except ValueError:
+                if val != val or abs(val) == float('inf'):
+                    continue
+                V('tearsheet-figure/unreadable/%s' % who, 'panel text %r' % txt)
+            if val != val or abs(val) == float('inf'):
+                continue
+            if abs(got - val * mult) > 0.5000001 * 10 ** (-nd) + 1e-7 * abs(val * mult):
+                V('tearsheet-figure/%s/row%s' % (who, y_), 'the tearsheet prints %r for the %s curve; its own values give %.*f%s '
+                  '(panel rows from the top: total return, CAGR, Sharpe, Sortino, volatility, max drawdown, duration)'
+                  % (txt, who, nd, val * mult, suffix))
+    acc.count('C17:tearsheet_figures_read')
+
+
 def json_equal(a, b):
     if isinstance(a, float) and isinstance(b, float):
         return a == b or (a != a and b != b)
@@ -442,6 +524,8 @@ def run_case(case, acc, rng=None, tmpdir=None):
             check_scale(case, acc, rng)
             if len(case['equity']) <= 300:
                 check_reporters(case, acc, tmpdir)
+            if case.get('figure') and 3 <= len(case['equity']) <= 400:
+                check_tearsheet_figure(case, acc)
         except Violation as v:
             acc.violation(v, case)
             return None
@@ -474,6 +558,7 @@ def shard(spec, acc):
                 break
             case = gen_curve(rng)
             case['seed'] = rng.randint(0, 2 ** 31)
+            case['figure'] = (i % 40 == 3)
             dd = run_case(case, acc, random.Random(case['seed']), tmpdir)
             acc.evaluations += 1
             acc.count('C17:class/%s' % case['kind'])
